@@ -27,7 +27,7 @@ C02, what the capstones (`Props/C02Capstone.lean`) still excluded.
    frames only.
 
 2. 0-RTT (`afterTls_early`, `zr_turn`, `quic_connection_exact_0rtt_partial`; the losses: `zero_rtt_dropped_without_key`,
-   `zero_rtt_rejected_poisons_pn`). What the tool does: the Early decryptor and the early header-protection key are derived
+   `legacy_zero_rtt_rejected_poisons_pn` / `zero_rtt_rejected_leaves_session`). What the tool does: the Early decryptor and the early header-protection key are derived
    in the same `set_tls_decryptors` call as all other keys, i.e. when the CRYPTO stream completes the ClientHello — with the
    FIRST OFFERED suite's hash / cipher / key length (quic_tls_parser.py l. 90 "For early data") — and again at the ServerHello
    with the selected suite. A 0-RTT packet is exported iff, when it is captured, that suite is the one the client protects
@@ -38,10 +38,13 @@ C02, what the capstones (`Props/C02Capstone.lean`) still excluded.
          suite may stand anywhere in the list); after the ServerHello: resumed suite = selected suite (given by RFC 8446
          §4.2.10 when the server accepts early data).
    When (a) fails the packet is dropped without a trace (`zero_rtt_dropped_without_key`). When (b) fails the dissector removes
-   header protection with the wrong key, `get_full_packet_number` stores the garbage packet number as the largest of the
-   client's application space BEFORE the AEAD check rejects the packet (`zero_rtt_rejected_poisons_pn`), and every later
-   1-RTT packet of the client is reconstructed next to it and lost: `harness/c02_0rtt_replay.py` (real tool, real
-   cryptography); kernel-checked witnesses `ExZr.zero_rtt_first_offered_suite_counterexample`,
+   header protection with the wrong key and the AEAD check rejects the packet. BEFORE the repair "only an authenticated QUIC
+   packet moves the largest packet number of its space" `get_full_packet_number` had by then stored the garbage packet number
+   as the largest of the client's application space (`legacy_zero_rtt_rejected_poisons_pn`, on `Session.Legacy`), and every
+   later 1-RTT packet of the client was reconstructed next to it and lost (`ExZr.legacy_first_offered_suite_counterexample`).
+   SINCE the repair the rejected packet leaves the session as it was (`zero_rtt_rejected_leaves_session`): only the 0-RTT
+   packet itself is lost, the following 1-RTT packets are exported (`ExZr.late_survives`). `harness/c02_0rtt_replay.py` (real
+   tool, real cryptography) shows both, depending on the tree under test; further kernel-checked witness
    `ExZr.zero_rtt_before_client_hello_counterexample`. The full statement is `quic_connection_exact_0rtt_statement` (a `def`,
    NOT proved: 0-RTT packets anywhere in the interleaved history under `ZrPkOk`); proved is the step
    `quic_connection_exact_0rtt_partial`; missing: `EarlyKeyed` threaded through the handshake invariant `HsSt`.
@@ -195,32 +198,26 @@ theorem selectDecryptor_wo (o : List Out) (s : St σ) (p : Pkt) :
       cases e <;> rfl
     · rfl
 
-theorem getFullPn_wo (o : List Out) (s : St σ) (p : Pkt) :
-    getFullPn (wo o s) p = (wo o (getFullPn s p).1, (getFullPn s p).2) := by
-  unfold getFullPn
+/-- (statement changed by the pn-store repair: `getFullPn` is pure) -/
+theorem getFullPn_wo (o : List Out) (s : St σ) (p : Pkt) : getFullPn (wo o s) p = getFullPn s p := rfl
+
+theorem setLargestPn_wo (o : List Out) (s : St σ) (p : Pkt) (pn : Bytes) :
+    setLargestPn (wo o s) p pn = wo o (setLargestPn s p pn) := by
+  unfold setLargestPn
   cases p.ptype.space with
   | none => rfl
   | some sp =>
     simp only
-    split
-    · rfl
-    · cases p.pn with
-      | none => rfl
-      | some pnb =>
-        simp only
-        have hl : pnLargest (wo o s) p.isServer sp = pnLargest s p.isServer sp := rfl
-        rw [hl]
-        congr 1
-        unfold pnStore
-        split <;> rfl
+    have hl : pnLargest (wo o s) p.isServer sp = pnLargest s p.isServer sp := rfl
+    rw [hl]
+    unfold pnStore
+    split <;> rfl
 
 theorem decryptRest_wo (o : List Out) (s : St σ) (p : Pkt) (d? : Option Dec) :
     decryptRest P (wo o s) p d? = (wo o (decryptRest P s p d?).1, (decryptRest P s p d?).2) := by
   unfold decryptRest
   rw [getFullPn_wo]
-  generalize getFullPn s p = r
-  obtain ⟨s', e⟩ := r
-  cases e with
+  cases getFullPn s p with
   | error e => rfl
   | ok pn =>
     simp only
@@ -236,9 +233,10 @@ theorem decryptRest_wo (o : List Out) (s : St σ) (p : Pkt) (d? : Option Dec) :
         | error e => rfl
         | ok pt =>
           simp only
+          rw [setLargestPn_wo]
           cases Frame.parseFrames pt with
           | none => rfl
-          | some fs => exact handleFrames_wo P o s' p fs
+          | some fs => exact handleFrames_wo P o _ p fs
 
 theorem decryptPacket_wo (o : List Out) (s : St σ) (p : Pkt) :
     decryptPacket P (wo o s) p = (wo o (decryptPacket P s p).1, (decryptPacket P s p).2) := by
@@ -1328,15 +1326,16 @@ theorem zero_rtt_dropped_without_key (s : St σ) (p : Pkt) (hh : p.htype = .long
     simp only [selectDecryptor, hh, ht, longDecryptor, hd]
   simp [stepPkt, ht, decryptPacket, hsel, afterDecrypt]
 
-/-- (B) an Early decryptor exists but is not the sender's (derived with another suite), so the AEAD check fails — and the
-    dissector has removed header protection with the wrong key, so `pnb` is garbage: `get_full_packet_number` has ALREADY
-    stored the packet number decoded from `pnb` as the largest one of the client's application space (shared by 0-RTT and
-    1-RTT packets, RFC 9000 §12.3). The packet is dropped; the table keeps the garbage. -/
-theorem zero_rtt_rejected_poisons_pn (s : St σ) (p : Pkt) (d : Dec) (pnb pn aad : Bytes) (e : PyErr)
+/-- (B), THE CODE BEFORE THE PN-STORE REPAIR (`Session.Legacy`): an Early decryptor exists but is not the sender's
+    (derived with another suite), so the AEAD check fails — and the dissector has removed header protection with the wrong
+    key, so `pnb` is garbage: the old `get_full_packet_number` has ALREADY stored the packet number decoded from `pnb` as
+    the largest one of the client's application space (shared by 0-RTT and 1-RTT packets, RFC 9000 §12.3). The packet is
+    dropped; the table keeps the garbage. -/
+theorem legacy_zero_rtt_rejected_poisons_pn (s : St σ) (p : Pkt) (d : Dec) (pnb pn aad : Bytes) (e : PyErr)
     (hh : p.htype = .long) (ht : p.ptype = .rtt0) (hd : s.decEarly = some d) (hpn : p.pn = some pnb)
     (hres : pnResult (pnLargest s p.isServer .app) pnb = .ok pn) (haad : assocData p = .ok aad)
     (hfail : decDecrypt P d p.payload pn aad p.isServer = .error e) :
-    stepPkt P s p =
+    Legacy.stepPkt P s p =
       { st := pnStore s p.isServer .app (PktNum.implUpdate (pnLargest s p.isServer .app)
           (PktNum.implDecode (2 ^ (8 * pnb.length)) (2 ^ 62) (pnLargest s p.isServer .app) (Bytes.beNat pnb))),
         caught := some e, escaped := none } := by
@@ -1344,9 +1343,26 @@ theorem zero_rtt_rejected_poisons_pn (s : St σ) (p : Pkt) (d : Dec) (pnb pn aad
     simp only [selectDecryptor, hh, ht, longDecryptor, hd]
   have hsp : p.ptype.space = some .app := by rw [ht]; rfl
   have hattr : hasPnAttr p = true := by unfold hasPnAttr; rw [hh, ht]
-  have hrest : decryptRest P s p (some d) =
+  have hrest : Legacy.decryptRest P s p (some d) =
       (pnStore s p.isServer .app (PktNum.implUpdate (pnLargest s p.isServer .app)
           (PktNum.implDecode (2 ^ (8 * pnb.length)) (2 ^ 62) (pnLargest s p.isServer .app) (Bytes.beNat pnb))), some e) := by
+    unfold Legacy.decryptRest Legacy.getFullPn
+    simp only [hsp, hattr, Bool.not_true, Bool.false_eq_true, if_false, hpn, hres, haad, hfail]
+  simp [Legacy.stepPkt, ht, Legacy.decryptPacket, hsel, hrest, afterDecrypt]
+
+/-- (B), the repaired code (the table is stored after `decryptor.decrypt` succeeded): under the very same hypotheses the
+    0-RTT packet is still dropped — its early keys are of the wrong suite — but the session, its packet-number tables
+    included, is exactly as before. -/
+theorem zero_rtt_rejected_leaves_session (s : St σ) (p : Pkt) (d : Dec) (pnb pn aad : Bytes) (e : PyErr)
+    (hh : p.htype = .long) (ht : p.ptype = .rtt0) (hd : s.decEarly = some d) (hpn : p.pn = some pnb)
+    (hres : pnResult (pnLargest s p.isServer .app) pnb = .ok pn) (haad : assocData p = .ok aad)
+    (hfail : decDecrypt P d p.payload pn aad p.isServer = .error e) :
+    stepPkt P s p = { st := s, caught := some e, escaped := none } := by
+  have hsel : selectDecryptor P s p = (s, .ok (some d)) := by
+    simp only [selectDecryptor, hh, ht, longDecryptor, hd]
+  have hsp : p.ptype.space = some .app := by rw [ht]; rfl
+  have hattr : hasPnAttr p = true := by unfold hasPnAttr; rw [hh, ht]
+  have hrest : decryptRest P s p (some d) = (s, some e) := by
     unfold decryptRest getFullPn
     simp only [hsp, hattr, Bool.not_true, Bool.false_eq_true, if_false, hpn, hres, haad, hfail]
   simp [stepPkt, ht, decryptPacket, hsel, hrest, afterDecrypt]
@@ -1399,17 +1415,30 @@ theorem zero_rtt_with_key_exported :
 def sB : St Bool := { s0 with decEarly := some { alg := selFirst.alg, server := none, client := dirKeys selFirst .v1 [5] } }
 def pzGarbled : Pkt := { pz with pn := some [0x3f, 0xa6, 0x90, 0x12] }
 
-/-- RFC-conformant client (RFC 8446 §4.2.11: the resumed suite may stand anywhere in the list), yet:
+/-- THE CODE BEFORE THE PN-STORE REPAIR (`Session.Legacy`). RFC-conformant client (RFC 8446 §4.2.11: the resumed suite may
+    stand anywhere in the list), yet:
     1. the 0-RTT packet is rejected by the AEAD, nothing is exported —
     2. but the garbage packet number 0x3fa69012 is now the largest one of the client's application space;
     3. the client's NEXT 1-RTT packet (number 1, `LATE`), which the session exports when it comes first (4.),
        is reconstructed next to the garbage, rejected and lost: `output_buffer` stays empty. -/
-theorem zero_rtt_first_offered_suite_counterexample :
+theorem legacy_first_offered_suite_counterexample :
+    (Legacy.stepPkt params sB pzGarbled).caught.isSome = true ∧ (Legacy.stepPkt params sB pzGarbled).st.out = [] ∧
+    (Legacy.stepPkt params sB pzGarbled).st.pnClient.app = 1067880466 ∧
+    (Legacy.stepPkt params (Legacy.stepPkt params sB pzGarbled).st p1).caught.isSome = true ∧
+    (Legacy.stepPkt params (Legacy.stepPkt params sB pzGarbled).st p1).st.out = [] ∧
+    ((Legacy.stepPkt params sB p1).st.out.map fun o => (o.ts, o.isServer, (frameOf o).data)) =
+      [(9, false, [0x4c, 0x41, 0x54, 0x45])] := by
+  decide +kernel
+
+/-- The same history on the REPAIRED code: the 0-RTT packet is still lost (the Early keys were derived for the first
+    offered suite 0x1303, the client used the resumed 0x1301: AEAD failure, nothing exported) — but the packet-number
+    table is untouched, and the client's following 1-RTT packet `LATE` is decrypted and exported with its time and
+    direction. -/
+theorem late_survives :
     (stepPkt params sB pzGarbled).caught.isSome = true ∧ (stepPkt params sB pzGarbled).st.out = [] ∧
-    (stepPkt params sB pzGarbled).st.pnClient.app = 1067880466 ∧
-    (stepPkt params (stepPkt params sB pzGarbled).st p1).caught.isSome = true ∧
-    (stepPkt params (stepPkt params sB pzGarbled).st p1).st.out = [] ∧
-    ((stepPkt params sB p1).st.out.map fun o => (o.ts, o.isServer, (frameOf o).data)) =
+    (stepPkt params sB pzGarbled).st.pnClient = sB.pnClient ∧
+    (stepPkt params (stepPkt params sB pzGarbled).st p1).caught = none ∧
+    ((stepPkt params (stepPkt params sB pzGarbled).st p1).st.out.map fun o => (o.ts, o.isServer, (frameOf o).data)) =
       [(9, false, [0x4c, 0x41, 0x54, 0x45])] := by
   decide +kernel
 
@@ -1453,7 +1482,7 @@ def _root_.TLX.Props.C02Capstone.Trk.dgx (t : Trk) (d : DgX) : Trk :=
     `suite`  `tls_session.ciphersuite` — unset until the CRYPTO stream has completed the ClientHello, then the FIRST OFFERED
              suite, from the ServerHello on the selected one — names `selR`: the tool's Early keys are the client's
              (`afterTls_early`); when it names ANOTHER known suite the packet is not only lost but poisons the client's
-             application packet-number space (`zero_rtt_rejected_poisons_pn`); when it is unset the packet is dropped
+             application packet-number space on the code before the pn-store repair (`legacy_zero_rtt_rejected_poisons_pn`; now: `zero_rtt_rejected_leaves_session`); when it is unset the packet is dropped
              (`zero_rtt_dropped_without_key`);
     the rest as for the other packets: RFC 9000 §17.2.3 shape, §12.4 frames (no CRYPTO), packet number in the window of the
     application space (shared with 1-RTT), header protection with the early key. -/
@@ -1507,7 +1536,7 @@ def expectedOutX (c : QConn) (ds : List DgX) (bs : List Dg1) : List Pipeline.Out
     part, under `ZrPkOk`). NOT PROVED: `quic_connection_exact_0rtt_partial` proves the step for one 0-RTT packet right after
     the firing `handle_crypto_frame`; missing is `EarlyKeyed` as part of the handshake invariant `HsSt` along the history.
     The condition `ZrPkOk.suite` is NOT implied by the RFCs before the ServerHello (first offered suite = resumed suite;
-    ClientHello complete): `ExZr.zero_rtt_first_offered_suite_counterexample`, `ExZr.zero_rtt_before_client_hello_counterexample`,
+    ClientHello complete): `ExZr.legacy_first_offered_suite_counterexample` / `ExZr.late_survives`, `ExZr.zero_rtt_before_client_hello_counterexample`,
     `harness/c02_0rtt_replay.py`. -/
 def quic_connection_exact_0rtt_statement : Prop :=
   ∀ (hl : H.Lawful) (h32 : H.sha256.outLen = 32) (L : SealLaws Pc)
